@@ -24,6 +24,8 @@ Inductive ftype :=
 | TFloatC (ge le : option Q)               (* ConstrainedFloat *)
 | TArr (k : akind)                         (* numpy ndarray of that kind *)
 | TList (t : ftype) (mn mx : option N)     (* List[t] with min_items/max_items *)
+| TListU (t : ftype) (mn mx : option N)    (* a List[t] whose emitted items are pairwise different (not a pydantic
+                                              notion: used to state conformance of duplicate-free basis sets) *)
 | TTuple (ts : list ftype)                 (* Tuple[t1,...,tn] *)
 | TDict (t : ftype)                        (* Dict[str, t] *)
 | TOpt (t : ftype)                         (* Optional[t] nested inside a container *)
@@ -103,6 +105,8 @@ Inductive Inh (z : bool) (env : env_t) : ftype -> pval -> Prop :=
     Inh z env (TArr k) (PArr k sh data)
 | I_list : forall t mn mx l, (forall x, In x l -> Inh z env t x) -> len_ok mn mx (List.length l) = true ->
                              Inh z env (TList t mn mx) (PList l)
+| I_listu : forall t mn mx l, (forall x, In x l -> Inh z env t x) -> len_ok mn mx (List.length l) = true ->
+                              uniqueb (map emit l) = true -> Inh z env (TListU t mn mx) (PList l)
 | I_tuple : forall ts l, Forall2 (Inh z env) ts l -> Inh z env (TTuple ts) (PList l)
 | I_dict : forall t d, (forall k v, In (k, v) d -> Inh z env t v) -> Inh z env (TDict t) (PDict d)
 | I_opt_none : forall t, Inh z env (TOpt t) PNone
@@ -115,6 +119,21 @@ Inductive Inh (z : bool) (env : env_t) : ftype -> pval -> Prop :=
     (forall k v, In (k, v) fs -> find_field k (m_fields m) = None -> m_extra m = true) ->
     (forall f, In f (m_fields m) -> f_required f = true -> has_key (f_alias f) fs = true) ->
     Inh z env (TModel name) (PModel fs).
+
+(** the descriptors with the listed (model, field) List fields declared duplicate-free *)
+Definition uniq_field (sites : list (string * string)) (mname : string) (f : field) : field :=
+  if existsb (fun p => String.eqb (fst p) mname && String.eqb (snd p) (f_alias f)) sites then
+    match f_type f with
+    | TList t mn mx => {| f_alias := f_alias f; f_required := f_required f; f_nullable := f_nullable f; f_type := TListU t mn mx |}
+    | _ => f
+    end
+  else f.
+Definition uniq_env (sites : list (string * string)) (e : env_t) : env_t :=
+  map (fun nm => (fst nm, {| m_extra := m_extra (snd nm); m_fields := map (uniq_field sites (fst nm)) (m_fields (snd nm)) |})) e.
+(** the four List fields of basis.py that carry "uniqueItems" in the exported schema *)
+Definition basis_unique_sites : list (string * string) :=
+  [("ElectronShell", "angular_momentum"); ("ECPPotential", "angular_momentum");
+   ("BasisCenter", "electron_shells"); ("BasisCenter", "ecp_potentials")].
 
 (** executable version (fuel decreases at every call; false when it runs out) *)
 Fixpoint forallb2 {A B} (f : A -> B -> bool) (l : list A) (m : list B) : bool :=
@@ -142,6 +161,7 @@ Fixpoint inhabitsb (n : nat) (z : bool) (env : env_t) (D : ftype) (v : pval) {st
           forallb (inhabitsb n' z env (scalar_ty k)) data &&
           match sh with [] => z && match data with [_] => true | _ => false end | _ => true end
       | TList t mn mx, PList l => forallb (inhabitsb n' z env t) l && len_ok mn mx (List.length l)
+      | TListU t mn mx, PList l => forallb (inhabitsb n' z env t) l && len_ok mn mx (List.length l) && uniqueb (map emit l)
       | TTuple ts, PList l => forallb2 (inhabitsb n' z env) ts l
       | TDict t, PDict d => forallb (fun kv => inhabitsb n' z env t (snd kv)) d
       | TOpt t, _ => is_none v || inhabitsb n' z env t v
@@ -169,7 +189,7 @@ Definition kind_of (D : ftype) : option jkind :=
   | TInt | TIntC _ _ => Some KInt
   | TFloat | TFloatC _ _ => Some KFlt
   | TBool => Some KBool
-  | TArr _ | TList _ _ _ | TTuple _ => Some KArr
+  | TArr _ | TList _ _ _ | TListU _ _ _ | TTuple _ => Some KArr
   | TDict _ | TModel _ => Some KObj
   | TAny | TOpt _ | TUnion _ => None
   end.
@@ -181,11 +201,14 @@ Definition type_ok (k : jkind) (t : jtype) : bool :=
   | _, _ => false
   end.
 
-(** can a value of this descriptor be None (and hence be dropped from the emission)? *)
-Fixpoint can_none (D : ftype) : bool :=
+(** can a value of this descriptor be None (and hence be dropped from the emission)?
+    (conservative for a Union nested directly in a Union, which pydantic flattens anyway) *)
+Definition maybe_none1 (D : ftype) : bool :=
+  match D with TAny | TOpt _ | TUnion _ => true | _ => false end.
+Definition can_none (D : ftype) : bool :=
   match D with
   | TAny | TOpt _ => true
-  | TUnion ts => (fix go (l : list ftype) : bool := match l with [] => false | t :: r => can_none t || go r end) ts
+  | TUnion ts => existsb maybe_none1 ts
   | _ => false
   end.
 
@@ -210,17 +233,18 @@ Definition leaf_compat (D : ftype) (k : jkind) (S : schema) : bool :=
                      end
   | SRequired rs => negb (is_objk k) || match rs with [] => true | _ => false end
   | SMinItems n => match D with
-                   | TList _ mn _ => (n <=? optN0 mn)%N
+                   | TList _ mn _ | TListU _ mn _ => (n <=? optN0 mn)%N
                    | TTuple ts => (n <=? N.of_nat (List.length ts))%N
                    | TArr _ => (n =? 0)%N
                    | _ => negb (is_arrk k)
                    end
   | SMaxItems n => match D with
-                   | TList _ _ (Some mx) => (mx <=? n)%N
+                   | TList _ _ (Some mx) | TListU _ _ (Some mx) => (mx <=? n)%N
                    | TTuple ts => (N.of_nat (List.length ts) <=? n)%N
                    | _ => negb (is_arrk k)
                    end
   | SUnique => match D with
+               | TListU _ _ _ => true
                | TList _ _ (Some mx) => (mx <=? 1)%N
                | TTuple ts => (N.of_nat (List.length ts) <=? 1)%N
                | _ => negb (is_arrk k)
@@ -264,14 +288,14 @@ Fixpoint compat (n : nat) (D : ftype) (S : schema) {struct n} : bool :=
               | SAnyOf l => existsb (compat n' D) l
               | SItems s =>
                   match D with
-                  | TList t _ _ => compat n' t s
+                  | TList t _ _ | TListU t _ _ => compat n' t s
                   | TArr k => compat n' (scalar_ty k) s
                   | TTuple ts => forallb (fun t => compat n' t s) ts
                   | _ => true
                   end
               | SItemsTuple ss =>
                   match D with
-                  | TList t _ _ => forallb (compat n' t) ss
+                  | TList t _ _ | TListU t _ _ => forallb (compat n' t) ss
                   | TArr k => forallb (compat n' (scalar_ty k)) ss
                   | TTuple ts => forallb (fun p => compat n' (fst p) (snd p)) (combine ts ss)
                   | _ => true
